@@ -64,4 +64,36 @@ theorem reuse_reproducible (idOf : CachedSpec → String) (hasMeta : List Bool) 
 /-- Without the copy, a pipeline with a swept node finds a different spec on its second run. -/
 example : afterRuns false [false, true] [false, false] 1 ≠ [false, false] := by decide
 
+theorem afterRuns_fixed (c : Bool) (hasMeta spec : CachedSpec) (h : tracedRun c hasMeta spec = spec) (n : Nat) :
+    afterRuns c hasMeta spec n = spec := by
+  induction n with
+  | zero => rfl
+  | succ n ih => simp only [afterRuns, h]; exact ih
+
+/-- **C10 (reuse, both directions).** Every later run finds the spec the first run found iff the run
+    copies, or enriching changes nothing (no node of this pipeline carries preprocessor metadata that is
+    not already attached). -/
+theorem reuse_reproducible_iff (c : Bool) (hasMeta spec : CachedSpec) :
+    (∀ n, afterRuns c hasMeta spec n = spec) ↔ (c = true ∨ tracedRun false hasMeta spec = spec) := by
+  constructor
+  · intro h
+    cases c with
+    | true => exact Or.inl rfl
+    | false => exact Or.inr (h 1)
+  · intro h n
+    cases c with
+    | true => exact afterRuns_fixed true hasMeta spec (by simp [tracedRun]) n
+    | false =>
+      cases h with
+      | inl h => cases h
+      | inr h => exact afterRuns_fixed false hasMeta spec h n
+
+/-- With an injective identity function, the second run of a non-copying pipeline with a swept node whose
+    metadata is not yet attached records a different identity. -/
+theorem reuse_differs_without_copy (idOf : CachedSpec → String) (hinj : ∀ a b, idOf a = idOf b → a = b)
+    (hasMeta spec : CachedSpec) (h : tracedRun false hasMeta spec ≠ spec) :
+    recordedId idOf (afterRuns false hasMeta spec 1) ≠ recordedId idOf spec := by
+  intro e
+  exact h (hinj _ _ e)
+
 end SemantivaModel.Trace
